@@ -69,3 +69,25 @@ Proof.
     exists m, e, c, k. repeat split; try reflexivity. right. split; [apply Z.eqb_neq; exact Em|].
     split; [exact Hin|]. split; [|exact Hsh]. intro E. rewrite E in Hle. discriminate.
 Qed.
+
+Lemma flip_conf_ok b : conf_text_ok (flip_conf_bits b) (flip_conf_text b) = true.
+Proof. unfold flip_conf_text, flip_conf_bits. apply conf_render_ok. Qed.
+
+(* on the confidences the heuristics can produce the judgement separates the values: the text rendered for one class is rejected for
+   every class with another bit pattern *)
+Definition class_bits : list Z := map C19.Model.confidence_bits C19.Proofs.all_classes.
+Lemma conf_discriminates_classes :
+  forallb (fun b1 => let t := render_f32 b1 in forallb (fun b2 => (b1 =? b2) || negb (conf_text_ok b2 t)) class_bits) class_bits = true.
+Proof. vm_compute. reflexivity. Qed.
+Lemma conf_discriminates d1 d2 :
+  conf_text_ok (C19.Model.confidence_bits d2) (render_f32 (C19.Model.confidence_bits d1)) = true ->
+  C19.Model.confidence_bits d1 = C19.Model.confidence_bits d2.
+Proof.
+  unfold C19.Model.confidence_bits. rewrite (C19.Proofs.confidence_clamp d1), (C19.Proofs.confidence_clamp d2).
+  fold (C19.Model.confidence_bits (C19.Proofs.clamp d1)). fold (C19.Model.confidence_bits (C19.Proofs.clamp d2)).
+  intro H. pose proof conf_discriminates_classes as A. rewrite forallb_forall in A.
+  assert (I1 : In (C19.Model.confidence_bits (C19.Proofs.clamp d1)) class_bits) by (apply in_map; apply C19.Proofs.clamp_in).
+  assert (I2 : In (C19.Model.confidence_bits (C19.Proofs.clamp d2)) class_bits) by (apply in_map; apply C19.Proofs.clamp_in).
+  specialize (A _ I1). cbv zeta in A. rewrite forallb_forall in A. specialize (A _ I2).
+  apply orb_prop in A. destruct A as [A|A]; [apply Z.eqb_eq; exact A|]. rewrite H in A. discriminate.
+Qed.
